@@ -145,7 +145,10 @@ def three_targets(rep, rng, tier):
                                                 "gen": {"go": {"package": "db", "out": "go"}, "kotlin": {"package": "com.x", "out": "kt"},
                                                         "python": {"package": "db", "out": "py"}}}]})
     res = run_harness([{"op": "generate", "experimental": True, "summary": True, "files": {"sqlc.json": cfg, "schema.sql": s, "query.sql": q}} for s, q in inputs])
-    for (schema, queries), r in zip(inputs, res):
+    cpos = run_harness([{"op": "compile", "engine": "postgresql", "schema": s, "queries": q, "positional": True} for s, q in inputs])
+    cnum = run_harness([{"op": "compile", "engine": "postgresql", "schema": s, "queries": q, "positional": False} for s, q in inputs])
+    name_exprs, name_ctx = [], []
+    for (schema, queries), r, rp, rn in zip(inputs, res, cpos, cnum):
         rep.case((schema, queries), nontrivial=True, sample={"queries": queries, "ok": r.get("ok")} if len(rep.samples) < 3 else None)
         replay = {"schema": schema, "queries": queries}
         if "panic" in r:
@@ -187,6 +190,17 @@ def three_targets(rep, rng, tier):
             if k is None or p is None:
                 rep.violation("query %s is missing from the Kotlin or Python output" % m["name"], replay)
                 continue
+            # naming models (Model/KtPyGen.v) against the emitted Kotlin signature / binds and Python arguments
+            qp = next((q for q in (rp.get("queries") or []) if q["name"] == m["name"]), None) if rp.get("ok") else None
+            qn = next((q for q in (rn.get("queries") or []) if q["name"] == m["name"]), None) if rn.get("ok") else None
+            pcols = lambda q: coqlist(["((%d)%%Z, %s)" % (x["number"], coqstr((x["column"] or {}).get("name", ""))) for x in q["params"]])
+            if qp is not None and not any("." in t for _, t in k["params"] if False):
+                name_exprs.append("kt_check %s %s %s" % (pcols(qp), coqlist([coqstr(a) for a, _ in k["params"]]),
+                                                         coqlist([coqstr(v) for _, v in sorted(k["binds"])])))
+                name_ctx.append(("kotlin", m["name"], schema, queries))
+            if qn is not None and len(qn["params"]) <= 4 and not (len(p["params"]) == 1 and p["params"][0][0] == "arg" and p["params"][0][1] in pclasses):
+                name_exprs.append("py_check %s %s" % (pcols(qn), coqlist([coqstr(a) for a, _ in p["params"]])))
+                name_ctx.append(("python", m["name"], schema, queries))
             marks = split_marks(src_stmts.get(m["name"], ""))
             distinct = sorted(set(marks))
             # (1) embedded SQL equal up to placeholder syntax
@@ -256,6 +270,14 @@ def three_targets(rep, rng, tier):
                             elif not null_agree(nullable_go(gt), kt.endswith("?"), pt.startswith("Optional[")):
                                 klass = "nullable_array_optional_in_python_only" if garr else ("untyped_column_nullability" if gt == "interface{}" else None)
                                 rep.violation("nullability of result column %s of %s differs: %s / %s / %s" % (gn, m["name"], gt, kt, pt), replay, klass=klass)
+    from qcommon import HEADER
+    verdicts = coq_eval(HEADER + "From Verif Require Import Judge.J20.\n", name_exprs, tag="c20names")
+    for (lang, qname, schema, queries), v in zip(name_ctx, verdicts):
+        rep.count("naming-model-checked:" + lang)
+        if 0 in v:
+            what = "signature" if v[0] == 0 else "bind sequence"
+            rep.violation("correspondence corr:C20:%s-names broken: the %s of %s differs from the naming model (Model/KtPyGen.v)" % (lang, what if lang == "kotlin" else "argument list", qname),
+                          {"schema": schema, "queries": queries}, no_input=True)
 
 
 def run(tier, seed):
